@@ -859,6 +859,38 @@ pub fn agreement_matrix(r: &mut Report, repetitions: usize, tag: &str) {
                 if res != Ok(!*dissent) && bad.len() < 6 { bad.push(format!("two-algorithm artifacts, links {} rank {} dissent {}: {:?}", n, pos, kind, res)); }
             } } }
         }
+        // entries without any digest are entries: a link that has one more (or one fewer) such path than the others dissents
+        {
+            let empty = in_toto::models::TargetDescription::new();
+            let full = |b: u8| -> in_toto::models::TargetDescription { let mut t = in_toto::models::TargetDescription::new(); t.insert(in_toto::crypto::HashAlgorithm::Sha256, in_toto::crypto::HashValue::new(vec![b; 32])); t };
+            let vp = |s: &str| in_toto::models::VirtualTargetPath::new(s.into()).unwrap();
+            type Arts = std::collections::BTreeMap<in_toto::models::VirtualTargetPath, in_toto::models::TargetDescription>;
+            let mk = |m: Arts, p: Arts| in_toto::models::LinkMetadataBuilder::new().name("a".into()).materials(m).products(p).build().unwrap();
+            let base_m: Arts = [(vp("m"), full(1))].into_iter().collect();
+            let base_p: Arts = [(vp("p"), full(2))].into_iter().collect();
+            let with = |a: &Arts, path: &str, td: &in_toto::models::TargetDescription| -> Arts { let mut x = a.clone(); x.insert(vp(path), td.clone()); x };
+            let kinds: Vec<(&str, Arts, Arts, Arts, Arts, bool)> = vec![
+                // (kind, everybody's materials, everybody's products, the one link's materials, the one link's products, dissent?)
+                ("extra digestless product", base_m.clone(), base_p.clone(), base_m.clone(), with(&base_p, "out/extra", &empty), true),
+                ("extra digestless material", base_m.clone(), base_p.clone(), with(&base_m, "in/extra", &empty), base_p.clone(), true),
+                ("digestless product missing", base_m.clone(), with(&base_p, "out/extra", &empty), base_m.clone(), base_p.clone(), true),
+                ("digestless product under another name", base_m.clone(), with(&base_p, "out/extra", &empty), base_m.clone(), with(&base_p, "out/other", &empty), true),
+                ("digestless product everywhere", base_m.clone(), with(&base_p, "out/extra", &empty), base_m.clone(), with(&base_p, "out/extra", &empty), false),
+                ("only digestless entries, one differs", [(vp("m"), empty.clone())].into_iter().collect(), [(vp("p"), empty.clone())].into_iter().collect(), [(vp("m"), empty.clone())].into_iter().collect(), [(vp("q"), empty.clone())].into_iter().collect(), true),
+            ];
+            for (kind, em, ep, om, op, dissent) in &kinds { for n in 2..=3usize { for pos in 0..n {
+                cells += 1;
+                let d = tmpdir();
+                let ks: Vec<&in_toto::crypto::PrivateKey> = pool.iter().take(n).collect();
+                for (i, k) in ks.iter().enumerate() {
+                    let l = if i == pos { mk(om.clone(), op.clone()) } else { mk(em.clone(), ep.clone()) };
+                    write_link(d.path(), "a", k.key_id(), &signed_link(&l, &[k]));
+                }
+                let lay = signed_layout(&layout(vec![step("a", n as u32, &ks, allow_all(), allow_all())], vec![], &ks, 30), &[&owner]);
+                let res = no_panic(|| in_toto_verify(&lay, owner_keys(&[&owner]), d.path().to_str().unwrap(), None).is_ok());
+                if res != Ok(!*dissent) && bad.len() < 6 { bad.push(format!("{}: links {} rank {}: {:?}", kind, n, pos, res)); }
+            } } }
+        }
         r.case("agreement-whatever-the-command-reported", json!({"cells": cells}), "Err exactly when the link dissents", format!("{:?}", bad), bad.is_empty());
     }
 }
